@@ -69,9 +69,15 @@ def prep_schema(detector, medium_index, illum_wavelen, illum_polarization):
                 if len(illum_wavelen) == 1:
                     illum_wavelen = illum_wavelen.repeat(
                         len(illum_polarization.illumination))
+                labels = illum_polarization.illumination
+                if (illumination in detector.dims and
+                        len(detector[illumination]) == len(illum_wavelen)):
+                    #  a plain list follows the order of the detector's
+                    #  channels, not the order the polarizations are listed in
+                    labels = detector[illumination].values
                 illum_wavelen = xr.DataArray(
                     illum_wavelen, dims=illumination,
-                    coords={illumination: illum_polarization.illumination})
+                    coords={illumination: labels})
         else:
             #  need to interpret illumination from detector.illum_wavelen
             if not isinstance(illum_wavelen, xr.DataArray):
